@@ -654,7 +654,7 @@ fn check_lists(c: &ListCase, obs: &mut Obs) -> Check {
         }
         let shader = Shader::new(|v: Vertex<ClipVec, f32>, _: ()| v, |f: Frag<f32>| re::math::rgba(1u8, 2, (f.var * 100.0) as i32 as u8, 4));
         let ctx = Context { face_cull: cull, ..Context::default() };
-        let mut fb = Framebuf { color_buf: Buf2::new_from((w, h), vec![0x1234_5678u32; (w * h) as usize]), depth_buf: Buf2::new_from((w, h), vec![f32::INFINITY; (w * h) as usize]) };
+        let mut fb = Framebuf { color_buf: Buf2::new_from((w, h), vec![0x1234_5678u32; (w * h) as usize]), depth_buf: Buf2::new_from((w, h), vec![0.0f32; (w * h) as usize]) };
         for _ in 0..c.calls {
             catch(|| render(&faces, &verts, &shader, (), viewport(pt2(0, 0)..pt2(w, h)), &mut fb, &ctx))?;
         }
